@@ -40,10 +40,46 @@ WILDCARD_SETS = {'any': ('notin', frozenset()), 'other': ('notin', frozenset((''
 OCCURS = ((0, 1), (1, 1), (0, None), (1, None), (0, 2), (1, 2), (2, 2), (2, 3), (2, None), (0, 3))
 
 
+def con_base(con):
+    """A constraint name may carry `~a,b`: notQName="##definedSibling" in a model whose element declarations are a and b
+    (the names are kept in the node so that a leaf is still self-contained; to_tuple keeps them in step with the model)."""
+    return con.split('~')[0]
+
+
 def wildcard_admits(con, sym):
     ns = SYMBOLS[sym][0]
-    kind, nss = WILDCARD_SETS[con]
+    kind, nss = WILDCARD_SETS[con_base(con)]
+    if '~' in con and sym in con.split('~')[1].split(','):
+        return False
     return (ns in nss) == (kind == 'in')
+
+
+def declared_names(node):
+    return sorted({lf[1] for lf in leaves(node) if lf[0] in 'et'} | ({'h'} if any(lf[0] == 'h' for lf in leaves(node)) else set()))
+
+
+def resync_siblings(node, names=None):
+    """Rewrite every ##definedSibling wildcard of the model with the names the model declares now."""
+    if names is None:
+        if not any(lf[0] == 'w' and '~' in lf[1] for lf in leaves(node)):
+            return node
+        names = ','.join(declared_names(node))
+    if is_group(node):
+        return (node[0], tuple(resync_siblings(c, names) for c in node[1])) + tuple(node[2:])
+    if node[0] == 'w' and '~' in node[1]:
+        return ('w', con_base(node[1]) + '~' + names) + tuple(node[2:])
+    return node
+
+
+def with_defined_sibling(node, rng, p=0.7):
+    """The same model with (some of) its wildcards carrying notQName="##definedSibling" (XSD 1.1)."""
+    def mark(n):
+        if is_group(n):
+            return (n[0], tuple(mark(c) for c in n[1])) + tuple(n[2:])
+        if n[0] == 'w' and '~' not in n[1] and rng.random() < p:
+            return ('w', n[1] + '~') + tuple(n[2:])
+        return n
+    return resync_siblings(mark(to_tuple(node)))
 
 
 def head_members(subst):
@@ -82,7 +118,10 @@ def is_group(node):
 def to_tuple(node):
     """Normalise lists (from JSON) to tuples."""
     if isinstance(node, (list, tuple)):
-        return tuple(to_tuple(x) for x in node)
+        t = tuple(to_tuple(x) for x in node)
+        if t and t[0] in ('s', 'c', 'a') and len(t) == 4 and isinstance(t[1], tuple):
+            return resync_siblings(t)
+        return t
     return node
 
 
@@ -184,9 +223,10 @@ def render_particle(node, cfg, indent='    ', types=None, named=None):
         return f'{indent}<xs:element ref="t:h"{occ_attrs(*occ(node))}/>\n'
     if k == 'w':
         pc = cfg.get('pc', 'skip')
-        if node[1] in NOT_ATTR:
-            return f'{indent}<xs:any notNamespace="{NOT_ATTR[node[1]]}" processContents="{pc}"{occ_attrs(*occ(node))}/>\n'
-        return f'{indent}<xs:any namespace="{CON_ATTR[node[1]]}" processContents="{pc}"{occ_attrs(*occ(node))}/>\n'
+        sib = ' notQName="##definedSibling"' if '~' in node[1] else ''
+        if con_base(node[1]) in NOT_ATTR:
+            return f'{indent}<xs:any notNamespace="{NOT_ATTR[con_base(node[1])]}"{sib} processContents="{pc}"{occ_attrs(*occ(node))}/>\n'
+        return f'{indent}<xs:any namespace="{CON_ATTR[con_base(node[1])]}"{sib} processContents="{pc}"{occ_attrs(*occ(node))}/>\n'
     tag = {'s': 'sequence', 'c': 'choice', 'a': 'all'}[k]
     if named is not None and node in named:
         return f'{indent}<xs:group ref="t:{named[node]}"{occ_attrs(*occ(node))}/>\n'
